@@ -542,16 +542,19 @@ pub fn check(problem: &PProblem, solution: &Value, opts: &OracleOptions) -> Vec<
                                 if p.loc != act_loc {
                                     continue;
                                 }
+                                // vicinity clustering changes service durations (serving policy, parking) and lets the walker wait:
+                                // the task is matched by kind and location, the windows are judged by check_cluster_windows
+                                let clustered = problem.clustering.is_some();
                                 if let Some(t) = a.time {
-                                    if ((t.1 - t.0) - p.duration).abs() > tol {
+                                    if !clustered && ((t.1 - t.0) - p.duration).abs() > tol {
                                         continue;
                                     }
                                 }
-                                let windows: Vec<(f64, f64)> = if p.times.is_empty() { vec![(f64::MIN, f64::MAX)] } else { p.times.clone() };
+                                let windows: Vec<(f64, f64)> = if p.times.is_empty() || clustered { vec![(f64::MIN, f64::MAX)] } else { p.times.clone() };
                                 for (ws, we) in windows {
                                     let start = start_hint.unwrap_or(cur_time.max(ws));
                                     let start = start.max(cur_time);
-                                    if start >= ws - tol && start <= we + tol && start <= cur_time.max(ws) + tol {
+                                    if start >= ws - tol && start <= we + tol && (clustered || start <= cur_time.max(ws) + tol) {
                                         tag_candidates.push(p.tag.clone());
                                         if best.is_none() {
                                             best = Some((tidx, pidx, start, p.duration));
@@ -796,6 +799,7 @@ pub fn check(problem: &PProblem, solution: &Value, opts: &OracleOptions) -> Vec<
     }
     if problem.clustering.is_some() {
         f.extend(check_commutes(problem, tours, tol));
+        f.extend(check_cluster_windows(problem, tours, tol));
     }
     // overall statistic = sum of tours
     let stat = solution.get("statistic");
@@ -918,6 +922,44 @@ fn check_commutes(problem: &PProblem, tours: &[Value], tol: f64) -> Vec<Finding>
         if let Some(reported) = times["parking"].as_f64() {
             if (reported - parking_total).abs() > eps.max(1.) {
                 f.push(Finding::new("C03:statistic-parking", here(format!("reported {reported}, the parking records sum up to {parking_total}"))));
+            }
+        }
+    }
+    f
+}
+
+/// Vicinity clustering: whatever the walk looks like, the service of every job starts inside one of the time windows of a
+/// place of the job at the location where it is served (the general replay matches places by duration, which the serving
+/// policies of a cluster change; this rule reads the reported service start only).
+fn check_cluster_windows(problem: &PProblem, tours: &[Value], tol: f64) -> Vec<Finding> {
+    let mut f = vec![];
+    let eps = tol + 1e-6;
+    let span = |v: &Value| -> Option<(f64, f64)> { Some((v.get("start").and_then(time_of)?, v.get("end").and_then(time_of)?)) };
+    for (ti, tour) in tours.iter().enumerate() {
+        let vehicle_id = tour.get("vehicleId").and_then(|x| x.as_str()).unwrap_or("");
+        for (si, stop) in tour.get("stops").and_then(|s| s.as_array()).into_iter().flatten().enumerate() {
+            let Some(stop_loc) = stop.get("location").and_then(loc_index) else { continue };
+            let (Some(arrival), Some(_)) = (stop["time"].get("arrival").and_then(time_of), stop["time"].get("departure").and_then(time_of)) else { continue };
+            for a in stop.get("activities").and_then(|a| a.as_array()).into_iter().flatten() {
+                let kind = a["type"].as_str().unwrap_or("");
+                let id = a["jobId"].as_str().unwrap_or("?");
+                let Some(job) = problem.jobs.iter().find(|j| j.id == id) else { continue };
+                let a_loc = a.get("location").and_then(loc_index).unwrap_or(stop_loc);
+                let reported = a.get("time").filter(|t| !t.is_null()).and_then(span).map(|t| t.0);
+                let admitted = job.tasks.iter().filter(|t| t.kind.name() == kind).flat_map(|t| t.places.iter()).filter(|p| p.loc == a_loc).any(|p| {
+                    p.times.is_empty()
+                        || p.times.iter().any(|(ws, we)| match reported {
+                            Some(start) => start >= ws - eps && start <= we + eps,
+                            // a stop with one activity reports no activity time: the service starts at max(arrival, window start)
+                            None => arrival <= we + eps,
+                        })
+                });
+                if !admitted {
+                    f.push(Finding::new(
+                        "C01:cluster-time-window",
+                        format!("tour {ti} ('{vehicle_id}'): stop {si} job '{id}' ({kind}) at location {a_loc}: service starts at {:?} (stop reached at {arrival}), no time window of the job at that location admits it", reported),
+                    ));
+                }
             }
         }
     }
